@@ -250,6 +250,7 @@ func (s *Store[H]) GetByHeight(ctx context.Context, height uint64) (H, error) {
 	if h, err := s.getByHeight(ctx, height); err == nil {
 		return h, nil
 	}
+	simYield("store:GetByHeight:after-miss")
 
 	// if the requested 'height' was not yet published
 	// we subscribe to it
@@ -451,13 +452,16 @@ func (s *Store[H]) flushLoop(ctx context.Context) {
 		s.ensureInit(headers)
 		// add headers to the pending and ensure they are accessible
 		s.pending.Append(headers...)
+		simYield("store:flush:after-pending")
 		// always inform heightSub about new headers seen.
 		s.heightSub.Notify(getHeights(headers...)...)
+		simYield("store:flush:after-notify")
 		// advance head and tail if we don't have gaps.
 		// TODO(@Wondertan): Beware of the performance penalty of this approach, which always makes a at least one
 		// datastore lookup for both Tail and Head.
 		s.advanceHead(ctx)
 		s.recedeTail(ctx)
+		simYield("store:flush:after-advance")
 		// don't flush and continue if pending batch is not grown enough,
 		// and Store is neither stopping(headers == nil) nor syncing(force)
 		if s.pending.Len() < s.Params.WriteBatchSize && headers != nil && !force {
@@ -483,8 +487,10 @@ func (s *Store[H]) flushLoop(ctx context.Context) {
 		}
 
 		s.metrics.flush(ctx, time.Since(startTime), s.pending.Len(), false)
+		simYield("store:flush:after-commit")
 		// reset pending
 		s.pending.Reset()
+		simYield("store:flush:after-reset")
 	}
 
 	for {
